@@ -245,7 +245,7 @@ Theorem sim_step fs qs tbl o :
   Inv fs -> Strict fs -> wf_op o -> R fs qs tbl -> QP.QInv qs ->
   exists qops tbl', Forall QP.op_clean qops /\ R (step fs o) (Q.run qs qops) tbl' /\ QP.QInv (Q.run qs qops).
 Proof.
-  intros I S W Rr QI. unfold step. destruct o as [m|who id secret|dts]; simpl.
+  intros I S W Rr QI. unfold step. destruct o as [m|who id secret|dts|gw gP]; simpl.
   - destruct (create fs m) as [fs'|] eqn:E.
     + destruct (sim_create _ _ _ _ _ I W Rr E) as (qo & tbl' & Hc & Rr').
       exists [qo], tbl'. split; [constructor; [exact Hc|constructor]|]. split; [exact Rr'|]. simpl. apply QP.step_inv; assumption.
@@ -255,6 +255,10 @@ Proof.
       exists [qo], tbl. split; [constructor; [exact Hc|constructor]|]. split; [exact Rr'|]. simpl. apply QP.step_inv; assumption.
     + exists [], tbl. split; [constructor|]. split; [exact Rr|exact QI].
   - destruct (sim_adv dts fs qs tbl I S Rr QI) as (qops & Hc & Rr' & QI'). exists qops, tbl. auto.
+  - (* MsgUpdateParams touches neither the contracts nor the height: no operation of the queue model *)
+    exists [], tbl. split; [constructor|]. split; [|exact QI].
+    destruct ((gw =? GOV) && params_valid gP); [|exact Rr].
+    destruct Rr as [Rh Rf Rb Ri Rv]. constructor; simpl; assumption.
 Qed.
 
 Lemma q_run_app : forall a b s, Q.run s (a ++ b) = Q.run (Q.run s a) b.
